@@ -48,7 +48,22 @@ impl Topology {
         if *radius < 0.0 || *ndim < 1 || *ntotal < 1 || *index > *ntotal {
             return None;
         }
-        let nedge = f32::ceil((*ntotal as f32).powf(1.0 / *ndim as f32)) as usize;
+        let mut nedge = f32::ceil((*ntotal as f32).powf(1.0 / *ndim as f32)) as usize;
+        // Correct the floating point estimate to the smallest edge length whose hypercube
+        // contains all indices
+        while nedge > 1
+            && (nedge - 1)
+                .checked_pow(*ndim as u32)
+                .map_or(false, |v| v >= *ntotal)
+        {
+            nedge -= 1;
+        }
+        while nedge
+            .checked_pow(*ndim as u32)
+            .map_or(false, |v| v < *ntotal)
+        {
+            nedge += 1;
+        }
         if let Some(dindex) = Topology::decompose_index(index, &nedge, ndim) {
             let mut neighbors = vec![];
             for i in 0..*ntotal {
